@@ -1,11 +1,13 @@
-import XixiKV.Proofs.TransEq2
+import XixiKV.Proofs.TransEq2Read
 /-!
 # Translated Go = model, round 3: the sequential reader
 
 | Go function                       | generated definition        | model                                   | theorem |
 |---|---|---|---|
 | `(*DataFile).zeroUntilEnd`        | `datafile.zeroUntilEnd`     | `Frame.allZeroFrom`                     | `trans_zeroUntilEnd_eq` |
-| `(*DataReader).next`              | `datafile.next`             | `Frame.nextAt` (+ `rnormB/rnormO`)      | `trans_next_eq` |
+| `(*DataReader).endOfLog`          | `datafile.endOfLog`         | the `.eof` line of `Frame.nextAt`       | `trans_endOfLog_eq` |
+| `(*DataReader).next`              | `datafile.next`             | `Frame.nextAt` (+ `rnormB/rnormO`)      | `trans_next_eq` (`trans_next_write`) |
+| `(*DataFile).Truncate`            | `datafile.Truncate`         | `ByteArray.extract 0 size`, `(size / BS, size % BS)` | `trans_Truncate_eq` (`_inv`, `_closed`) in `TransEq3Trunc.lean` |
 
 `Generated/Trans.lean` is regenerated from /repo's current source on every run (`harness/cmd/trans`,
 round 3: `round3.go`); see `harness/cmd/trans/NOTES.md` for the subset, the tables and what is trusted.
@@ -867,48 +869,5 @@ example : ∃ b o, datafile.next (file := ByteArray.empty) (crc32_ChecksumIEEE :
   have h := trans_next_eq ByteArray.empty (mkBytes 32768) (mkBytes 32768) false 1 0 0 5 (by simp) (by simp)
     (by decide) (by decide)
   exact h
-
-/-! ## `(*DataFile).Truncate` -/
-
-/-- **`(*DataFile).Truncate`** on an open file in the writer state of `file`: a size at or beyond the end changes
-    nothing; a smaller one cuts the file (`truncate` effect) and sets `(lastBlockID, lastBlockSize)` to
-    `(size / BS, size % BS)` -/
-theorem trans_Truncate_eq (file : ByteArray) (size : Nat) (h : file.size / BS < 2^32) :
-    datafile.Truncate file (file.size / BS) (file.size % BS) false (size : Int)
-      = if size ≥ file.size then ((none, file.size / BS, file.size % BS), file)
-        else ((none, size / BS, size % BS), file.extract 0 size) := by
-  have hsz := trans_Size_eq file.size h
-  rw [hBS] at h ⊢
-  rw [hBS] at hsz
-  by_cases hc : size ≥ file.size
-  · rw [if_pos hc]
-    simp (disch := omega) only [datafile.Truncate, Bool.false_eq_true, ↓reduceIte, hsz, if_pos]
-  · rw [if_neg hc]
-    simp (disch := omega) only [datafile.Truncate, Bool.false_eq_true, ↓reduceIte, hsz, if_neg, datafile.blockSize,
-      Int.toNat_natCast, tdiv_of_nonneg, Int.tmod_eq_emod_of_nonneg]
-    refine Prod.ext (Prod.ext rfl (Prod.ext ?_ ?_)) rfl
-    · show ((size : Int) / ((32768 : Nat) : Int) % 2 ^ 32).toNat = size / 32768
-      omega
-    · show ((size : Int) % ((32768 : Nat) : Int) % 2 ^ 32).toNat = size % 32768
-      omega
-
-/-- … so the writer-state invariant `(lastBlockID, lastBlockSize) = (size / BS, size % BS)` of the file, which
-    every other theorem about the translated functions assumes, is preserved by `Truncate` -/
-theorem trans_Truncate_inv (file : ByteArray) (size : Nat) (h : file.size / BS < 2^32) :
-    (datafile.Truncate file (file.size / BS) (file.size % BS) false (size : Int)).1
-      = (none, (datafile.Truncate file (file.size / BS) (file.size % BS) false (size : Int)).2.size / BS,
-         (datafile.Truncate file (file.size / BS) (file.size % BS) false (size : Int)).2.size % BS) := by
-  rw [trans_Truncate_eq file size h]
-  by_cases hc : size ≥ file.size
-  · rw [if_pos hc]
-  · rw [if_neg hc]
-    have : (file.extract 0 size).size = size := by rw [ByteArray.size_extract]; omega
-    simp only [this]
-
-/-- a closed file: `ErrClosed`, nothing changes -/
-theorem trans_Truncate_closed (file : ByteArray) (a b : Nat) (size : Int) :
-    datafile.Truncate file a b true size = ((some "ErrClosed", a, b), file) := rfl
-
-example : datafile.Truncate ⟨#[1, 2, 3, 4, 5]⟩ 0 5 false 2 = ((none, 0, 2), ⟨#[1, 2]⟩) := by decide
 
 end XixiKV.TransEq
